@@ -249,6 +249,39 @@ func srScenario(t *tr.W, sc *srScript, free bool) string {
 			go func(n string) { defer wg.Done(); body(n, sc.Procs[n])(nil) }(n)
 		}
 		wg.Wait()
+		// every handle has been given back: the snapshots are released.  Several goroutines now try to get a handle on
+		// them at the same instant (Open and NewIterator mixed): none may succeed, whatever the others are doing to the
+		// count meanwhile.  A success is logged (and the handle closed again); failures are summarised.
+		if sc.Seed%2 == 0 {
+			var hw sync.WaitGroup
+			gun := int32(0)
+			for g := 0; g < 5; g++ {
+				hw.Add(1)
+				go func(g int) {
+					defer hw.Done()
+					name := names[g%len(names)]
+					atomic.AddInt32(&gun, 1)
+					for atomic.LoadInt32(&gun) < 5 {
+					}
+					for i := 0; i < 20000; i++ {
+						sn := 1 + (i+g)%len(r.snaps)
+						if g < 3 {
+							if it := r.snaps[sn-1].NewIterator(); it != nil {
+								t.Emit(tr.Ev{"e": "OpenRet", "p": name, "sn": sn, "ok": true, "api": "NewIterator"})
+								t.Emit(tr.Ev{"e": "CloseCall", "p": name, "sn": sn, "api": "Iterator.Close"})
+								it.Close()
+							}
+						} else if r.snaps[sn-1].Open() {
+							t.Emit(tr.Ev{"e": "OpenRet", "p": name, "sn": sn, "ok": true, "api": "Open"})
+							t.Emit(tr.Ev{"e": "CloseCall", "p": name, "sn": sn, "api": "Close"})
+							r.snaps[sn-1].Close()
+						}
+					}
+					t.Emit(tr.Ev{"e": "OpenRet", "p": name, "sn": 1, "ok": false, "api": "Open / NewIterator (20000 attempts on released snapshots)"})
+				}(g)
+			}
+			hw.Wait()
+		}
 	} else {
 		for _, n := range names {
 			r.s.Go(n, body(n, sc.Procs[n]))
